@@ -10,6 +10,10 @@ open Journal Drv
   `insert|run|seq|key` `rawload|run` `delete|run` `truncate|run|seq` `purgeops|run|fid` `addop|run|fid|name`  (crud)
   `dump`                                  → every row and op
   `wait|fid|inflight|done|timedOut|choice` → one `wait_for_next_task` call
+  `c27xhist`                              → the history observables of the current process life (the vocabulary of
+                                            `C27_journal_table_all_lives` / `C27_observed_order_is_journal_prefix`):
+                                            `returnedKeys`, `freshKeys` of the calls since `boot`, the row-numbering
+                                            invariant of the run, "no fallback so far", "returned = first idx entries"
 Outputs are canonical one-liners; malformed input → `bad-op`. -/
 namespace Drv.Journal
 
@@ -17,6 +21,7 @@ structure St where
   db : Db String := {}
   run : String := ""
   a : Adapter String := {}
+  hist : List (WaitRes String) := []   -- results of the `wait` calls of the current life, in order
 
 def showKeys (ks : List String) : String := if ks.isEmpty then "-" else ",".intercalate ks
 
@@ -49,7 +54,7 @@ def b (x : Bool) : String := if x then "1" else "0"
 def step (s : St) (line : String) : St × String :=
   match line.splitOn "|" with
   | ["new"] => ({}, "ok")
-  | ["boot", run] => if run.isEmpty then (s, "bad-op") else ({ s with run := run, a := {} }, "ok")
+  | ["boot", run] => if run.isEmpty then (s, "bad-op") else ({ s with run := run, a := {}, hist := [] }, "ok")
   | ["load"] =>
     let tj := s.a.tj.load s.db s.run
     ({ s with a := { s.a with tj := tj } }, showTJ tj)
@@ -93,9 +98,14 @@ def step (s : St) (line : String) : St × String :=
     | some f, some t =>
       let ch := if choice == "-" then none else some choice
       let (a, db, r) := waitNext s.a s.db s.run f (parseKeys inflight) (parseKeys done) t ch
-      ({ s with a := a, db := db },
+      ({ s with a := a, db := db, hist := s.hist ++ [r] },
        s!"{showOut r.out} fallback={b r.fallback} purged={b r.purged} {showTJ a.tj} journal={showKeys (db.load s.run)}")
     | _, _ => (s, "bad-op")
+  | ["c27xhist"] =>
+    let rets := returnedKeys s.hist
+    let jr := s.db.load s.run
+    let seqs := (s.db.rows.filter (·.run == s.run)).map (·.seq)
+    (s, s!"returned={showKeys rets} fresh={showKeys (freshKeys s.hist)} wf={b (seqs == List.range seqs.length)} nofallback={b (s.hist.all (fun r => !r.fallback))} prefix={b (rets == jr.take s.a.tj.idx)} idx={s.a.tj.idx} journal={showKeys jr}")
   | _ => (s, "bad-op")
 
 end Drv.Journal
